@@ -7,6 +7,7 @@ to the Adds.
 -/
 import SsqlVerif.Proofs.SessionRun
 import SsqlVerif.Proofs.SessionOrder
+import SsqlVerif.Proofs.SessionFlush
 set_option autoImplicit false
 
 namespace C10
@@ -83,6 +84,29 @@ def bridgeOps : List Op :=
 example : (run (init 10 100 0) (bridgeOps.take 2)).1.sessions.length = 2 := by decide
 example : ((run (init 10 100 0) bridgeOps).2.map (fun e => (e.start, e.stop, e.rows.map (·.id))))
     = [(100, 125, [1, 2, 3])] := by decide
+
+/-! ### manual flush (`Streamsql.TriggerWindow`) -/
+
+/-- **A manual flush delivers every open row exactly once and leaves nothing behind**: from any reachable
+state, the rows it delivers are the rows of the open sessions (multiplicities included), every delivered
+session has the bounds and the gap clause of a session, no session stays open, and the flushed window again
+satisfies every invariant the theorems above rest on — so they go on holding for the rows that follow. -/
+theorem manual_flush (timeout ooo lateness : Int) (ht : 0 < timeout) (ops : List Op) (x : Row) :
+    let w := (run (init timeout ooo lateness) ops).1
+    (firstRows (flushAll w).2).count x = (openRows w).count x ∧
+    (∀ e ∈ (flushAll w).2, e.late = false ∧ EmOk timeout e ∧ Chain timeout e.start e.rows) ∧
+    (flushAll w).1.sessions = [] ∧ Inv (flushAll w).1 := by
+  intro w
+  have hinv : Inv w := inv_run (init timeout ooo lateness) ops (inv_init timeout ooo lateness ht)
+  have ht' : w.timeout = timeout := run_timeout (init timeout ooo lateness) ops
+  refine ⟨flushAll_rows w x, ?_, rfl, flushAll_inv w hinv⟩
+  intro e he
+  have := flushAll_emissions w hinv e he
+  rw [ht'] at this
+  exact this
+
+example : ((flushAll (run (init 10 0 0) (demoOps.take 3)).1).2.map (fun e => (e.start, e.stop, e.rows.map (·.id))))
+    = [(1000, 1015, [1, 2]), (1050, 1060, [3])] := by decide
 
 /-! ### in-order input: the outcome does not depend on how fast the events are fed -/
 
